@@ -251,13 +251,30 @@ def _parse_mode_match(L, body, fn, rel):
     return {"local": loc[0], "notes": nts[0], "default_in": dfl[0], "default_out": dfl[1], "cas_failure": "strip"}
 
 
-def _cas_success_clears(L):
+def _cas_clear_condition(L):
+    """enqueue_prompt_messages_to_cas: WHICH prompts does a successful enqueue upload and clear?
+    The loop must be `for (_key, prompt) in prompts.iter_mut() { if <atoms joined by &&> { ...; prompt.messages.clear(); } }`;
+    recognised atoms: `!prompt.messages.is_empty()` and `prompt.accepted_lines > 0`."""
     rel = "src/authorship/post_commit.rs"
     f = _norm(_fn_text(L, rel, "enqueue_prompt_messages_to_cas"))
-    m = re.search(r"for \(_key, prompt\) in prompts\.iter_mut\(\) \{ if !prompt\.messages\.is_empty\(\) \{(.*)\} \} Ok\(\(\)\) \}$", f)
-    if not m or not m.group(1).strip().endswith("prompt.messages.clear();"):
-        raise L.GenError("enqueue_prompt_messages_to_cas: the loop no longer ends with prompt.messages.clear()")
-    return True
+    m = re.search(r"for \(_key, prompt\) in prompts\.iter_mut\(\) \{ if (.*?) \{(.*)\} \} Ok\(\(\)\) \}$", f)
+    if not m:
+        raise L.GenError("enqueue_prompt_messages_to_cas: per-prompt loop `for (_key, prompt) in prompts.iter_mut() "
+                         "{ if <cond> { .. } } Ok(())` not found")
+    body = m.group(2).strip()
+    if "prompt.messages_url = Some(" not in body or not body.endswith("prompt.messages.clear();"):
+        raise L.GenError("enqueue_prompt_messages_to_cas: the taken branch no longer sets messages_url and ends with "
+                         "prompt.messages.clear()")
+    atoms = []
+    for at in m.group(1).split("&&"):
+        at = at.strip()
+        if at == "!prompt.messages.is_empty()":
+            atoms.append("CHasMessages")
+        elif at == "prompt.accepted_lines > 0":
+            atoms.append("CAcceptedPositive")
+        else:
+            raise L.GenError(f"enqueue_prompt_messages_to_cas: unrecognised per-prompt condition {at!r}")
+    return atoms
 
 
 def _effective(L):
@@ -364,7 +381,7 @@ def generate(L):
                 writers.append((rel, fname, m.group(1), prim, arms, src_w, src_n))
     if not writers:
         raise L.GenError("no note writers found at all")
-    _cas_success_clears(L)
+    cas_atoms = _cas_clear_condition(L)
     excl, inc_empty_dflt, inc_match_dflt, fallback = _effective(L)
     rules, default = _cannot_refetch(L)
 
@@ -384,7 +401,9 @@ def generate(L):
             f"mkWriter {_name(L, rel)} {_name(L, fn)} {prim} {_arms_coq(arms)} {L.coq_bool(sw)} {L.coq_bool(sn)}"
             f"\n     (* {rel} :: {fn} -> {call}; mode match={_arms_txt(arms)}, worklog={sw}, notes={sn} *)"
             for rel, fn, call, prim, arms, sw, sn in writers) + "].",
-        "Definition cas_success_clears : bool := true.",
+        "(* a successful CAS enqueue uploads and clears exactly the prompts that meet ALL of these conditions *)",
+        "Inductive cas_atom := CHasMessages | CAcceptedPositive.",
+        "Definition cas_clear_when : list cas_atom := [" + "; ".join(cas_atoms) + "].",
         f"Definition eff_excluded : smode := M{excl}.",
         f"Definition eff_unparsable_global : smode := M{inc_empty_dflt}.",
         f"Definition eff_unparsable_global_included : smode := M{inc_match_dflt}.",
